@@ -1,5 +1,39 @@
-(** C03 -- placeholder while the proofs are built *)
-From RL Require Import Model.Decode.
-Theorem C03_placeholder : m_decode strict_opts [] = Val (Err [IncompleteFlags], []).
-Proof. reflexivity. Qed.
-Print Assumptions C03_placeholder.
+(** C03 -- Control messages and all AVP kinds survive encode then decode
+    unchanged.  [wf_avp] / [wf_ctrl] are the property's domain, as boolean
+    predicates: field ranges, array sizes, non-empty variable payloads, valid UTF-8,
+    optional tails never [Some ""], each AVP at most 1023 octets, the message at most
+    65535, first AVP (if any) a Message Type.  The encoder is the Model encoder
+    ([m_encode], proved equal to the Spec encoder in C06), the decoder the Model
+    decoder under the strictest options. *)
+From RL Require Import Model.Decode Model.Encode Spec.SpecDecode Spec.SpecEncode Proofs.RoundTrip.
+
+Theorem C03_ctrl_roundtrip : forall m, wf_ctrl m = true ->
+  exists b, m_encode (Control m) [] = Val b /\ b = s_enc_ctrl m /\
+            m_decode strict_opts b = Val (Ok (Control (with_length m (len b))), []).
+Proof. exact ctrl_roundtrip. Qed.
+
+Theorem C03_avp_roundtrip : forall a, wf_avp a = true ->
+  exists b, m_enc_avp a [] = Val b /\ b = s_enc_avp a /\ m_avps b = Val ([Ok a], []).
+Proof. exact avp_roundtrip. Qed.
+
+(** the same on the Spec, per payload format and per record *)
+Theorem C03_payload_roundtrip : forall a, wf_avp a = true -> is_hidden a = false ->
+  s_payload (attr_type a) (s_value a) = Ok a.
+Proof. exact payload_roundtrip. Qed.
+
+Theorem C03_record_roundtrip : forall a, wf_avp a = true ->
+  Framing.well_delimited (s_enc_avp a) = true /\ s_record (s_enc_avp a) = Ok a.
+Proof. exact record_roundtrip. Qed.
+
+(** non-vacuity: the domain contains non-trivial values of several shapes *)
+Example C03_domain_nonempty :
+  wf_ctrl {| c_length := 0; c_tunnel := 65535; c_session := 0; c_ns := 1; c_nr := 2;
+             c_avps := [AMessageType SetLinkInfo; AResultCode 65535 (Some (Generic, Some [206; 169]));
+                        AHidden 40000 [1;2;3]; ACallErrors 1 2 3 4 5 4294967295;
+                        AStr VendorName [240; 159; 146; 169]; ASequencingRequired] |} = true.
+Proof. vm_compute. reflexivity. Qed.
+
+Print Assumptions C03_ctrl_roundtrip.
+Print Assumptions C03_avp_roundtrip.
+Print Assumptions C03_payload_roundtrip.
+Print Assumptions C03_record_roundtrip.
